@@ -125,6 +125,48 @@ pub fn run(ctx: &Ctx) {
     }
     ctx.enumerate("grid_all_hash_w", grid.len() as u64, true, |i| grid[i as usize].clone(), |c| check_byte_exact(ctx, c));
 
+    // from key generation onwards: the key pair as keygen returns it (seed object built either way,
+    // with / without aux data), signed with, and checked against the reference signer / verifier
+    let mut kgs: Vec<(HashId, Vec<Level>, u8)> = Vec::new();
+    for (hi, h) in ALL_HASHES.iter().enumerate() {
+        for (si, shape) in [vec![(4u32, 5u32)], vec![(8, 2), (2, 5)], vec![(1, 2), (8, 2), (4, 2)]].iter().enumerate() {
+            for mode in 0..3u8 {
+                if (hi + si + mode as usize) % 2 == 0 {
+                    kgs.push((*h, shape.clone(), mode));
+                }
+            }
+        }
+    }
+    ctx.enumerate("keygen_then_sign", kgs.len() as u64, false, |i| kgs[i as usize].clone(), |(h, levels, mode): &(HashId, Vec<Level>, u8)| {
+        let n = h.n();
+        let m = compat_model(ctx, *h);
+        let seed = gen::expand(0xc07 + *mode as u64, n);
+        let kg = match mode {
+            0 => libapi::keygen(*h, levels, &seed, None),
+            1 => libapi::keygen_seed_from_array(*h, levels, &seed, 0x5a),
+            _ => libapi::keygen(*h, levels, &seed, Some(&mut libapi::AuxBuf::new(vec![0u8; 900]))),
+        };
+        let (sk, pk) = match kg {
+            Out::Ok(v) => v,
+            o => return fail(format!("keygen-{}", o.kind()), format!("{:?}", o.panic_msg())),
+        };
+        let total: u64 = 1u64 << levels.iter().map(|l| l.1).sum::<u32>();
+        for counter in [0u64, total - 1] {
+            let blob = with_counter(&sk, counter);
+            let sig = match libapi::sign(*h, b"from keygen", &blob, Cb::Accept, None).0 {
+                Out::Ok(s) => s,
+                o => return fail(sign_failure_key(*h, levels, o.kind()), format!("sign with the generated key: {:?}", o.panic_msg())),
+            };
+            if sig != hss::sign(&m, levels, &seed, counter as u128, b"from keygen") {
+                return fail("sig-mismatch generated-key", format!("signature made with the key returned by keygen (mode {}) differs from the reference signature for the same seed ({} counter {})", mode, levels_str(levels), counter));
+            }
+            if !hss::verify(&m, b"from keygen", &sig, &pk) {
+                return fail("model-verify-rejects generated-key", format!("the reference verifier rejects the signature under the public key returned by the same keygen call (mode {}, {} counter {})", mode, levels_str(levels), counter));
+            }
+        }
+        pass(format!("{}|L{}|mode{}", h.name(), levels.len(), mode), true)
+    });
+
     if !ctx.quick() {
         // thorough only: a root tree of height 20 (leaf indices beyond 16 bits). The model tree is
         // not built; the library's signature is checked by the independent verifier under the
